@@ -44,6 +44,26 @@ def _run_one(py):
     return lines, "uncaught " + cls
 
 
+def _run_one_msg(py):
+    try:
+        q = subprocess.run([sys.executable, "-I", "-c", py], capture_output=True, text=True, timeout=10)
+    except subprocess.TimeoutExpired:
+        return [], "timeout", ""
+    lines = q.stdout.split("\n")
+    if lines and lines[-1] == "":
+        lines = lines[:-1]
+    if q.returncode == 0:
+        return lines, "ok", ""
+    err = q.stderr.strip().split("\n")[-1] if q.stderr.strip() else "?"
+    return lines, "uncaught " + err.split(":")[0].strip().split(".")[-1], err
+
+
+def run_python_msg(pys, workers=16):
+    """like run_python, with the last line of the traceback"""
+    with ThreadPoolExecutor(max_workers=workers) as ex:
+        return list(ex.map(_run_one_msg, pys))
+
+
 def run_python(pys, workers=16):
     """-> list of (printed lines, outcome) for each python source"""
     with ThreadPoolExecutor(max_workers=workers) as ex:
